@@ -42,8 +42,8 @@ CHECKS["C17"] = {
     "pkg": "./props/c17",
     "level": "exploration",
     "technique": "differential property-based testing (rapid): generated ZIP archives read by zipslicer vs generator layout, Go archive/zip and Python zipfile; rewrite/read-back round trips",
-    "level_text": "A byte-exact ZIP generator with a layout model (descriptor kinds, forced ZIP64 records, extras, comments, prefix, gaps, permuted directory, 0..64 KiB members) produces archives that Go archive/zip and Python zipfile must first accept; zipslicer's random-access and tar-streaming readers must then report the same member list, offsets, sizes, CRCs and contents. The untouched directory must re-serialise to the original entry bytes (end records equal in meaning, byte-identical when no ZIP64 end record is involved; GetOriginalDirectory byte-identical always). Mangle/NewFile/MakePatch rewrites (delete subsets, add files, force ZIP64) for 1-3 rounds must be read back identically by Go, Python and relic (both modes). Archives beyond 4 GiB are generated as sparse byte strings (stored member of 4 GiB + {0,1,16,4096} bytes, 1-3 small members above it, ZIP64 extras in the 24-byte and in the only-saturated-values style): read by relic and archive/zip, rewritten (member in front deleted, file added) and read back by archive/zip, relic and, for a sample of cases, Python zipfile on a sparse file.",
-    "level_note": "Beyond 4 GiB only the random-access reader and stored members are exercised (streaming a 4 GiB member per case is too slow); deflated members stay <= 64 KiB. Listed findings (archive comment, signature-less descriptor, permuted directory in streaming mode, 24-byte descriptor on empty member) are probed each run and excluded by construction from the main search.",
+    "level_text": "A byte-exact ZIP generator with a layout model (descriptor kinds, forced ZIP64 records, extras, comments, prefix, gaps, permuted directory, 0..64 KiB members) produces archives that Go archive/zip and Python zipfile must first accept; zipslicer's random-access and tar-streaming readers must then report the same member list, offsets, sizes, CRCs and contents. The untouched directory must re-serialise to the original entry bytes (end records equal in meaning, byte-identical when no ZIP64 end record is involved; GetOriginalDirectory byte-identical always). Mangle/NewFile/MakePatch rewrites (delete subsets, add files, force ZIP64) for 1-3 rounds must be read back identically by Go, Python and relic (both modes). Archives beyond 4 GiB are generated as sparse byte strings (2-5 members, one or more of them 4 GiB + {0,1,16,4096} zero bytes, stored or deflated, small members in between and above; ZIP64 extras in the 24-byte and in the only-saturated-values style): read by relic and archive/zip, rewritten (a member with others behind it deleted, a file added) and read back by archive/zip and relic; a sample of cases (1 in 200 quick, 1 in 10 thorough) goes through the tar-streaming reader with every member consumed, and through Python zipfile on a sparse file.",
+    "level_note": "Beyond 4 GiB the member content is all zero bytes and the references list the big members without reading them (Python refuses members > 1 GiB; archive/zip content is read for the small members only). Listed findings (archive comment, signature-less descriptor, permuted directory in streaming mode, 24-byte descriptor on empty member) are probed each run and excluded by construction from the main search.",
     "quick": {"checks": 2500, "timeout": 900},
     "thorough": {"checks": 12000, "timeout": 3400, "shards": 8},
 }
